@@ -882,6 +882,9 @@ fn main() {
                         .and_then(|l| l.parse().ok())
                         .unwrap_or(0);
                     if cur < last || o.ops_txt.contains('r') || o.ops_txt.contains('k') { "sequence-after-reopen" } else { "history-replay" }
+                } else if lines[*a + 1].contains("/invalid/") {
+                    // `replay` answered Err(InvalidEntry): not an outcome the WAL reader has for bytes it wrote
+                    "replay-invalid-entry-error"
                 } else {
                     "driver-rejected"
                 };
@@ -911,7 +914,8 @@ fn main() {
                     }
                 }
             } else if s_var != "ok" {
-                rep.spec_violation(&known, "driver-rejected", &format!("vspec answered {}", s_var), &format!("{}\n{}", case_line, lines[*a + 3]));
+                let sig = if lines[*a + 3].contains("/invalid/") { "replay-invalid-entry-error" } else { "driver-rejected" };
+                rep.spec_violation(&known, sig, &format!("vspec answered {}", s_var), &format!("{}\n{}", case_line, lines[*a + 3]));
             }
             for (k, v) in o.vars.iter().enumerate() {
                 let region = o.regions[k];
